@@ -57,6 +57,24 @@ macro_rules! harness {
     (avx2, $unwind:literal, $name:ident, $body:expr) => {
         $crate::harness_x86!([], $unwind, $name, $body);
     };
+    (avx2mem, $unwind:literal, $name:ident, $body:expr) => {
+        $crate::harness_x86!(
+            [
+                kani::stub(core::arch::x86_64::_mm256_unpacklo_epi8, $crate::models::abstract_unpack),
+                kani::stub(core::arch::x86_64::_mm256_unpackhi_epi8, $crate::models::abstract_unpack),
+                kani::stub(core::arch::x86_64::_mm256_unpacklo_epi16, $crate::models::abstract_unpack),
+                kani::stub(core::arch::x86_64::_mm256_unpackhi_epi16, $crate::models::abstract_unpack),
+                kani::stub(core::arch::x86_64::_mm256_unpacklo_epi32, $crate::models::abstract_unpack),
+                kani::stub(core::arch::x86_64::_mm256_unpackhi_epi32, $crate::models::abstract_unpack),
+                kani::stub(core::arch::x86_64::_mm256_unpacklo_epi64, $crate::models::abstract_unpack),
+                kani::stub(core::arch::x86_64::_mm256_unpackhi_epi64, $crate::models::abstract_unpack),
+                kani::stub(core::arch::x86_64::_mm256_permute2x128_si256, $crate::models::abstract_permute2x128)
+            ],
+            $unwind,
+            $name,
+            $body
+        );
+    };
     (avx2vec8, $unwind:literal, $name:ident, $body:expr) => {
         $crate::harness_x86!(
             [
